@@ -1280,10 +1280,21 @@ def pair_callers_ok(eng, f, pidx, sidx, seen):
 # ------------------------------------------------------------------ R4
 def rule_subtractions(eng):
     fb, res = eng.fb, eng.res
+    # one-line predicates over their parameters are judged where they are called, with the arguments substituted
+    # (their guard may be the conjunct to their left at the call site)
+    items = []
     for f in eng.fns:
         if not f.cfg_raw:
             continue
-        for n in f.nodes():
+        sites = eng.callers.get(f.key, [])
+        inl = [(cf, cn, facts.inline_predicate(fb, cn)) for cf, cn in sites if cn.get("k") == "call"]
+        if sites and all(e is not None for _, _, e in inl) and len(inl) == len(sites):
+            for cf, cn, e in inl:
+                items += [(cf, x, cn) for x in walk(e)]
+            continue
+        items += [(f, x, None) for x in f.nodes()]
+    for f, n, at in items:
+        if True:
             if n.get("k") != "bin" or n.get("op") not in ("<", "<=", ">", ">=", "==", "!="):
                 continue
             for side in (n["l"], n["r"]):
@@ -1299,7 +1310,7 @@ def rule_subtractions(eng):
                     key = "%s:`%s`@%s" % (f.name.replace(NS, ""), canon(s)[:60], (n.get("loc") or "").split(":", 1)[-1])
                     acan = canon(a)
                     bv = const_value(b)
-                    fs = eng.mf(f).at(s)
+                    fs = eng.mf(f).at(at if at is not None else s)
                     # facts from earlier conjuncts in the same expression are path facts too (CFG splits &&)
                     ok = False
                     why = ""
